@@ -51,7 +51,8 @@ def register(reg):
     for n, f in ((0, 1), (1, 1), (2, 2), (3, 6)):
         reg.contract(UT, "factorial", PROP, name='n%d' % n, sorts={"n": "int"}, requires=["n == %d" % n], inline=['factorial'],
             ensures=[("value", "result == %d" % f)], modifies=[])
-    register_evaluate1d(reg)
+    # register_evaluate1d(reg)   # IN PROGRESS (round 6): the representation-invariant contract of Caching1D._evaluate generates 184 obligations, 178 discharged;
+    # the six coefficient clauses are still solver-unknown (division by a symbolic node spacing), so the contract is NOT registered and nothing is claimed from it
 
 
 # ---------------------------------------------------------------------------------------------- Caching1D._evaluate: representation invariant
